@@ -233,3 +233,112 @@ def build_tofile(eng):
         # exactly the tensor's bytes on a normal return; never more on any exit
         ensures=["io.g_written == io.g_len"],
         raises_default=["io.g_written <= io.g_len"], assert_mode="raise"))
+
+
+# ------------------------------------------------------------------------------------------------------------------
+# ExternalTensor.tobytes / _load: which bytes of the data file the tensor's bytes are
+def build_window(eng):
+    """Ghost model of the memory map: an `Mmap` object carries g_win, the file position of its byte 0 (the `offset=` given to
+    mmap.mmap, 0 by default).  Slicing it (raw[a:b]) yields the file range [g_win + a, g_win + b); np.frombuffer(raw, offset=o,
+    count=c) views the file from g_win + o.
+      tobytes():  the returned bytes are the file range [offset, offset + length) of this tensor (top-level, from the statement)
+      _load():    the array views the file from the tensor's offset; the map starts at file position 0 (helper contract derived
+                  from the code, the representation invariant tobytes() relies on)."""
+    import z3
+    from pyvc.core import ClassDecl, Exc, FnDecl
+    from pyvc.types import INT, NULL, TRec, TRef, VFunc, VInt, VNone, VOpaque, VRec, VRef, fresh_name
+    if "Mmap" not in eng.classes:
+        eng.add_class(ClassDecl("Mmap", fields={"g_win": INT}))
+    RANGE = TRec("FileRange", (("start", INT), ("n", INT)))
+    if "FileRange" not in eng.classes:
+        eng.add_class(ClassDecl("FileRange", record=RANGE))
+    eng.classes["ExternalTensor"].fields["raw"] = TRef("Mmap")
+    eng.classes["ExternalTensor"].fields["g_view0"] = INT          # file position viewed by element 0 of _array (ghost)
+    OFF = "ite(self._offset is None, 0, some(self._offset))"
+    LEN = "ite(self._length is None or some(self._length) == 0, self.nbytes, some(self._length))"
+
+    def m_mmap(e, p, args, kwargs, node):
+        m = e.new_object(p, "Mmap")
+        off = kwargs.get("offset")
+        e.write_field(p, m, "g_win", off if off is not None else VInt(0))
+        return [(p, m), (p.copy(), Exc("OSError", f"L{node.lineno}:mmap"))]
+
+    def m_frombuffer(e, p, args, kwargs, node):
+        raw = args[0]
+        o = kwargs.get("offset", VInt(0))
+        if isinstance(raw, VRef) and raw.cls == "Mmap":
+            me = e.ghost_env["self_t"]
+            e.write_field(p, me, "g_view0", VInt(e.read_field(p, raw, "g_win").z + o.z))
+        return [(p, VOpaque("ndarray view of the map"))]
+
+    def setup(e, p, env):
+        e.lenient = True
+        e.lib_models["mmap.mmap"] = m_mmap
+        gran = VInt(z3.Int("ALLOCATIONGRANULARITY"))
+        p.assume(gran.z >= 1)
+        e.lib_consts = dict(getattr(e, "lib_consts", {}) or {})
+        e.lib_consts["mmap.ALLOCATIONGRANULARITY"] = gran       # a platform constant: some positive integer
+        e.lib_models["numpy.frombuffer"] = m_frombuffer
+        e.ghost_env = dict(e.ghost_env)
+        e.ghost_env["self_t"] = env["self"]
+        orig_slice = e.get_slice
+
+        def get_slice(p2, base, lo, hi, st, node):
+            if isinstance(base, VRef) and base.cls == "Mmap" and st is None and lo is not None and hi is not None:
+                w = e.read_field(p2, base, "g_win").z
+                return [(p2, VRec(RANGE, {"start": VInt(w + lo.z), "n": VInt(hi.z - lo.z)}))]
+            return orig_slice(p2, base, lo, hi, st, node)
+        e.get_slice = get_slice
+        orig_const = e.ev_Constant
+
+        def ev_Constant(node, p2):
+            if node.value == b"" and isinstance(node.value, bytes):
+                # the empty tensor's bytes: a range of length 0 that is not a slice of the map (start -1)
+                return [(p2, VRec(RANGE, {"start": VInt(-1), "n": VInt(0)}))]
+            return orig_const(node, p2)
+        e.ev_Constant = ev_Constant
+        # np.empty(...) of an opaque shape (the size-0 branch of _load): an array that is not a view of the file
+        e.lib_models["numpy.empty"] = lambda e_, p2, a, k, n: [(p2, VOpaque("empty ndarray"))]
+    for nm in ("_check_validity", "_check_path_containment"):
+        eng.functions[f"{CORE}.ExternalTensor.{nm}"] = FnDecl(f"{CORE}.ExternalTensor.{nm}", "contract", CORE, f"ExternalTensor.{nm}",
+                                                              requires=[], ensures=[], raises={"AnyException": []}, modifies=[])
+    load_c = FnDecl(f"{CORE}.ExternalTensor._load", "contract", CORE, "ExternalTensor._load", requires=[],
+                    ensures=["nonnull(self.raw)", "self.raw.g_win == 0"], raises={"AnyException": []},
+                    modifies=["ExternalTensor.raw", "ExternalTensor._array", "ExternalTensor.g_view0", "$alloc", "Mmap.g_win"])
+
+    def setup_tobytes(e, p, env):
+        setup(e, p, env)
+        e.functions[f"{CORE}.ExternalTensor._load"] = load_c
+    pre = ["self.nbytes >= 0", "implies(self._offset is not None, some(self._offset) >= 0)",
+           "implies(self._length is not None, some(self._length) >= 0)",
+           # representation invariant: an existing map starts at file position 0
+           "implies(self.raw is not None, self.raw.g_win == 0)"]
+    eng.add_target(Target("ExternalTensor.tobytes", mod=CORE, qual="ExternalTensor.tobytes", self_cls="ExternalTensor", setup=setup_tobytes,
+        params={}, requires=pre,
+        # either the empty tensor's zero bytes (never mapped), or exactly the tensor's range of the data file
+        ensures=[f"(result.start == -1 and result.n == 0) or (result.start == {OFF} and result.n == {LEN})"],
+        raises_default=[], assert_mode="raise"))
+
+    def setup_load(e, p, env):
+        setup(e, p, env)
+        e.functions.pop(f"{CORE}.ExternalTensor._load", None)
+        # what happens to the viewed array afterwards (unpacking of sub-byte types, reshape) is the packing targets' and the
+        # bounded stand-in's business: opaque here
+        for nm in ("unpack_4bitx2", "unpack_2bitx4"):
+            e.functions[f"onnx_ir._type_casting.{nm}"] = FnDecl(f"onnx_ir._type_casting.{nm}", "opaque")
+    eng.add_target(Target("ExternalTensor._load", mod=CORE, qual="ExternalTensor._load", self_cls="ExternalTensor", setup=setup_load,
+        params={}, requires=["implies(self._offset is not None, some(self._offset) >= 0)", "self._array is None",
+                             f"implies(self.raw is not None, self.raw.g_win == 0 and self.g_view0 == {OFF})"],
+        # a normal return either made an empty array without mapping (size 0) or mapped the file from position 0 and views it
+        # from the tensor's offset
+        ensures=["implies(self.raw is not None, self.raw.g_win == 0)",
+                 f"implies(self.raw is not None, self.g_view0 == {OFF})"],
+        raises_default=[], assert_mode="raise"))
+
+
+_build_c04 = build
+
+
+def build(eng, tier):
+    _build_c04(eng, tier)
+    build_window(eng)
